@@ -240,3 +240,147 @@ Example C06_wf_scoped_is_plan_aware :
   wf_scoped None ex_plan = true /\ wf_scoped (Some ([0], [])) ex_plan = false /\
   ending_of (run_impl (Some ([0], [])) eps0 50 ex_plan) = Panicked PVarMissing.
 Proof. repeat split; vm_compute; reflexivity. Qed.
+
+(* ======================================================================================== *)
+(* 5. ROUND 2 — accepted by the static rules, in place of the hypothesis wf_static.          *)
+(*                                                                                          *)
+(* StaticRules.check (theories/StaticRules.v, C09) is the executable model of the static    *)
+(* rules of src/resolver.rs on the NAMED tree; C09's correspondence requires the resolver's *)
+(* verdict and diagnostics to coincide with it.  It ignores every id.  wf_static looks      *)
+(* arities up by FunctionId.  The bridge (theories/RulesWf.v) is the boolean                *)
+(*     ids_consistent p = calls_lexical p && fids_unique p && params_in_range p             *)
+(* (every definition has a FunctionId, every user call carries the FunctionId of the        *)
+(*  definition its name denotes lexically = first definition of the name directly in the    *)
+(*  innermost enclosing block that has one, FunctionIds are pairwise distinct, and the      *)
+(*  parameters of a function fit its local-id range), and the parser-level shape            *)
+(*     idx_targets p        (the target of an index assignment is an index expression).     *)
+(*                                                                                          *)
+(* DERIVED from `check p = []` (proofs/RulesImplyWf.v, rule by rule):                       *)
+(*   PBuiltinArity  built-in call arity      (ArityMismatch over the generated built-in     *)
+(*                                            table = the built-ins run_impl dispatches on) *)
+(*   PArgCount      user-call arity          (ArityMismatch against the first definition of *)
+(*                                            the name in the innermost defining block;     *)
+(*                                            calls_lexical + fids_unique turn the name     *)
+(*                                            into the id wf_static looks up)               *)
+(*   PArgIndex      method argument counts   (MethodArity: exact arity for a receiver of a  *)
+(*                                            statically known kind, UnknownMethod otherwise;*)
+(*                                            fa29849's rule for receivers typed at run     *)
+(*                                            time: the count is an arity the name has in   *)
+(*                                            some built-in family)                         *)
+(*   PBreakEscapes  comot/next placement     (Break/NextOutsideLoop; a function body resets *)
+(*                                            the loop context in both checkers)            *)
+(* NOT derivable from the static rules, kept as hypotheses about the resolved tree:         *)
+(*   PParamRange    `#params <= llen`        StaticRules has no local ids; it is the        *)
+(*                                            params_in_range conjunct of ids_consistent    *)
+(*   PIdxAssignEnd  index-assignment target  neither the resolver nor StaticRules looks at  *)
+(*                                            it; it is a guarantee of the PARSER, proved   *)
+(*                                            for the parser model: C06_parser_guarantees_  *)
+(*                                            idx_targets                                   *)
+(*   and the FunctionId of a definition being bound / its table entry being its own         *)
+(*   (fids_unique + calls_lexical).                                                         *)
+(* lib/props/c06.py evaluates check / ids_consistent / idx_targets / wf_static (extracted)   *)
+(* on the resolver's own tree for every program of every run: accepted => check = [] and    *)
+(* ids_consistent and idx_targets; and the theorem instance itself.                          *)
+Require Import NS.theories.StaticRules NS.theories.LexResolve NS.theories.RulesWf.
+Require Import NS.theories.Parser NS.theories.ParserShape.
+Require Import NS.proofs.RulesImplyWf NS.proofs.RulesNoPanic NS.proofs.ParserShapeProofs.
+
+Theorem C06_rules_accept_implies_wf_static :
+  forall p, StaticRules.check p = [] -> ids_consistent p = true -> idx_targets p = true ->
+  wf_static p = true.
+Proof. exact rules_accept_implies_wf_static. Qed.
+Print Assumptions C06_rules_accept_implies_wf_static.
+
+(* a program the static rules accept never panics at the structural sites: ALL plans, eps, fuel *)
+Theorem C06_accepted_by_rules_never_panics_structural :
+  forall p, StaticRules.check p = [] -> ids_consistent p = true -> idx_targets p = true ->
+  forall plan eps fuel s,
+  ending_of (run_impl plan eps fuel p) = Panicked s ->
+  s <> PArgCount /\ s <> PBuiltinArity /\ s <> PArgIndex /\ s <> PBreakEscapes /\
+  s <> PIdxAssignEnd /\ s <> PParamRange.
+Proof. exact accepted_by_rules_never_panics_structural. Qed.
+Print Assumptions C06_accepted_by_rules_never_panics_structural.
+
+(* C04's binding relation (LexResolve.lexical: every occurrence carries the id of the
+   declaration it denotes lexically; ids of distinct declarations are distinct) is stronger
+   than ids_consistent — so the hypothesis C04's theorems already make suffices here *)
+Theorem C06_lexical_implies_ids_consistent :
+  forall p, lexical p = true -> ids_consistent p = true.
+Proof. exact lexical_implies_ids_consistent. Qed.
+Print Assumptions C06_lexical_implies_ids_consistent.
+
+Theorem C06_accepted_by_rules_lexical_never_panics_structural :
+  forall p, StaticRules.check p = [] -> lexical p = true -> idx_targets p = true ->
+  forall plan eps fuel s,
+  ending_of (run_impl plan eps fuel p) = Panicked s ->
+  s <> PArgCount /\ s <> PBuiltinArity /\ s <> PArgIndex /\ s <> PBreakEscapes /\
+  s <> PIdxAssignEnd /\ s <> PParamRange.
+Proof. exact accepted_by_rules_lexical_never_panics_structural. Qed.
+Print Assumptions C06_accepted_by_rules_lexical_never_panics_structural.
+
+(* the parser-level hypothesis: whatever the parser model (theories/Parser.v, either source
+   variant, any token list) returns, a resolved tree that is this tree with ids attached
+   has index expressions as index-assignment targets *)
+Theorem C06_parser_guarantees_idx_targets :
+  forall v ts r num p,
+  parse_program v ts = Parser.Done r -> erase_ids p = to_lang num (p_stmts r) -> idx_targets p = true.
+Proof. exact resolved_parse_idx_targets. Qed.
+Print Assumptions C06_parser_guarantees_idx_targets.
+
+(* with the scoping checker: no Panicked ending at all.  "_partial": wf_scoped for the plan
+   that is run is still a hypothesis (the shipped resolver does not enforce it:
+   C06_refuted_without_wf_scoped) *)
+Theorem C06_accepted_by_rules_never_panics_partial :
+  forall plan p, StaticRules.check p = [] -> ids_consistent p = true -> idx_targets p = true ->
+  wf_scoped plan p = true ->
+  forall eps fuel s, ending_of (run_impl plan eps fuel p) <> Panicked s.
+Proof.
+  intros plan p Hc Hi Hx. apply accepted_never_panics_partial.
+  apply rules_accept_implies_wf_static; assumption.
+Qed.
+Print Assumptions C06_accepted_by_rules_never_panics_partial.
+
+(* ---------- non-vacuity / sharpness (all by computation) ---------- *)
+(* nested functions with a shadowing inner definition of another arity, a method on a call
+   result, a deep index assignment, push on an element, comot under if inside a loop *)
+Example C06_rules_hypotheses_satisfiable :
+  StaticRules.check ex_rules_ok = [] /\ ids_consistent ex_rules_ok = true /\ lexical ex_rules_ok = true /\
+  idx_targets ex_rules_ok = true /\ wf_static ex_rules_ok = true /\
+  ending_of (run_impl None eps0 60 ex_rules_ok) = Lang.Done.
+Proof. repeat split; vm_compute; reflexivity. Qed.
+
+(* ids_consistent is needed: the rules see names only.  A call of the inner g(a) that carries
+   the id of the outer g() passes the rules, is not lexical, and panics at the arity assert *)
+Example C06_rules_need_lexical_call_ids :
+  StaticRules.check ex_rules_wrong_target = [] /\ calls_lexical ex_rules_wrong_target = false /\
+  wf_static ex_rules_wrong_target = false /\
+  ending_of (run_impl None eps0 60 ex_rules_wrong_target) = Panicked PArgCount.
+Proof. repeat split; vm_compute; reflexivity. Qed.
+
+(* ... and distinct FunctionIds: with a shared id the table answers with the other arity *)
+Example C06_rules_need_unique_fids :
+  StaticRules.check ex_rules_dup_fid = [] /\ calls_lexical ex_rules_dup_fid = true /\
+  fids_unique ex_rules_dup_fid = false /\ wf_static ex_rules_dup_fid = false.
+Proof. repeat split; vm_compute; reflexivity. Qed.
+
+(* ... and the parameter range, which no static rule mentions (ex_prange of section 2) *)
+Example C06_rules_need_param_range :
+  StaticRules.check ex_prange = [] /\ calls_lexical ex_prange = true /\ fids_unique ex_prange = true /\
+  params_in_range ex_prange = false /\ ending_of (run_impl None eps0 50 ex_prange) = Panicked PParamRange.
+Proof. repeat split; vm_compute; reflexivity. Qed.
+
+(* ... and the parser-level shape (ex_idxassign of section 2: the rules accept `a get 1` spelled
+   as an index assignment to a bare variable, which the parser never builds) *)
+Example C06_rules_need_idx_targets :
+  StaticRules.check ex_idxassign = [] /\ ids_consistent ex_idxassign = true /\
+  idx_targets ex_idxassign = false /\ ending_of (run_impl None eps0 50 ex_idxassign) = Panicked PIdxAssignEnd.
+Proof. repeat split; vm_compute; reflexivity. Qed.
+
+(* each derived rule is the static rule that excludes the panic: the section-2 witnesses that
+   wf_static rejects are rejected by StaticRules.check with the matching rule *)
+Example C06_rules_reject_the_panicking_shapes :
+  map fst (StaticRules.check ex_argidx) = [MethodArity] /\
+  map fst (StaticRules.check ex_break) = [BreakOutsideLoop] /\
+  map fst (StaticRules.check ex_arity) = [ArityMismatch] /\
+  map fst (StaticRules.check ex_builtin) = [ArityMismatch].
+Proof. repeat split; vm_compute; reflexivity. Qed.
